@@ -49,6 +49,42 @@ func assignedPaths(body *ast.BlockStmt) (assigned map[string]bool, calls map[str
 	return
 }
 
+// deepPaths: assignedPaths of a method body, together with those of the methods of the same receiver type it calls (two levels
+// down, receiver names normalised to the caller's), so that moving some of the statements into a helper method of the same
+// type does not change what is read off the method.
+func deepPaths(f *ast.File, recvType string, fd *ast.FuncDecl, depth int) (assigned map[string]bool, calls map[string]bool) {
+	assigned, calls = assignedPaths(fd.Body)
+	if depth == 0 || fd.Recv == nil || len(fd.Recv.List) != 1 || len(fd.Recv.List[0].Names) != 1 {
+		return
+	}
+	self := fd.Recv.List[0].Names[0].Name
+	for p := range calls {
+		parts := strings.Split(p, ".")
+		if len(parts) != 2 || parts[0] != self {
+			continue
+		}
+		callee := methodOf(f, recvType, parts[1])
+		if callee == nil || callee == fd || callee.Body == nil || len(callee.Recv.List[0].Names) != 1 {
+			continue
+		}
+		other := callee.Recv.List[0].Names[0].Name
+		a2, c2 := deepPaths(f, recvType, callee, depth-1)
+		rename := func(q string) string {
+			if q == other || strings.HasPrefix(q, other+".") {
+				return self + q[len(other):]
+			}
+			return q
+		}
+		for q := range a2 {
+			assigned[rename(q)] = true
+		}
+		for q := range c2 {
+			calls[rename(q)] = true
+		}
+	}
+	return
+}
+
 func methodOf(f *ast.File, recvType, name string) *ast.FuncDecl {
 	for _, d := range f.Decls {
 		fd, ok := d.(*ast.FuncDecl)
@@ -81,7 +117,7 @@ func translateDecoderReset(repo string) (map[string]string, error) {
 	if reset == nil || ci == nil || rel == nil {
 		return nil, fmt.Errorf("Decoder.reset / CheckIntegrity / releaseTemporaryObjects not found")
 	}
-	ra, rc := assignedPaths(reset.Body)
+	ra, rc := deepPaths(f, "Decoder", reset, 2)
 	for _, must := range []string{"d.once", "d.cur", "d.timestamp", "d.lastTimeOffset", "d.err", "d.fileHeader", "d.messages", "d.crc", "d.fileId"} {
 		if !ra[must] {
 			return nil, fmt.Errorf("reset() no longer assigns %s: the API model must be revisited", must)
@@ -90,13 +126,13 @@ func translateDecoderReset(repo string) (map[string]string, error) {
 	if !rc["d.accumulator.Reset"] || !rc["d.crc16.Reset"] {
 		return nil, fmt.Errorf("reset() no longer resets the accumulator / crc16")
 	}
-	la, _ := assignedPaths(rel.Body)
+	la, _ := deepPaths(f, "Decoder", rel, 2)
 	for _, must := range []string{"d.localMessageDefinitions", "d.developerDataIndexes", "d.fieldDescriptions", "d.fileId", "d.messages"} {
 		if !la[must] {
 			return nil, fmt.Errorf("releaseTemporaryObjects() no longer assigns %s", must)
 		}
 	}
-	ca, cc := assignedPaths(ci.Body)
+	ca, cc := deepPaths(f, "Decoder", ci, 1)
 	b := func(v bool) string {
 		if v {
 			return "true"
@@ -208,7 +244,7 @@ func translateDecoderReset(repo string) (map[string]string, error) {
 	if er == nil {
 		return nil, fmt.Errorf("Encoder.reset not found")
 	}
-	era, erc := assignedPaths(er.Body)
+	era, erc := deepPaths(ef, "Encoder", er, 2)
 	sf, err := parser.ParseFile(fset, filepath.Join(repo, "encoder/stream.go"), nil, 0)
 	if err != nil {
 		return nil, err
@@ -245,7 +281,7 @@ func translateDecoderReset(repo string) (map[string]string, error) {
 	if pr == nil {
 		return nil, fmt.Errorf("Decoder.Reset not found")
 	}
-	pra, prc := assignedPaths(pr.Body)
+	pra, prc := deepPaths(f, "Decoder", pr, 1)
 	if !prc["d.reset"] {
 		return nil, fmt.Errorf("Decoder.Reset no longer calls d.reset(): the API model must be revisited")
 	}
